@@ -14,6 +14,14 @@ fn p(id: u8, val: PVal) -> Prop {
     Prop { id, val }
 }
 
+/// `k` ASCII letters, then one 2- / 3- / 4-byte character (`ch` = 0 / 1 / 2), then "zz".
+fn mb_string(ch: u8, k: usize) -> String {
+    let mut s = "a".repeat(k);
+    s.push(['\u{e9}', '\u{20ac}', '\u{1f600}'][ch as usize % 3]);
+    s.push_str("zz");
+    s
+}
+
 fn flag(viol: &mut Vec<(String, String)>, rule: &str, ctx: &str, detail: String) {
     viol.push((format!("C09:{}:{}", rule, ctx), detail));
 }
@@ -247,6 +255,10 @@ pub struct PubCase {
     /// order of the builder calls (see `eval_pub`)
     #[serde(default)]
     pub order: u8,
+    /// Some((character width class, offset, where)): a multi-byte character at a byte offset of the topic (0), the
+    /// Content Type (1), the Response Topic (2), a User Property key (3) or value (4); replaces topic / properties
+    #[serde(default)]
+    pub mb: Option<(u8, usize, u8)>,
 }
 
 fn pub_prop_sets() -> Vec<Vec<Prop>> {
@@ -287,11 +299,24 @@ fn pub_prop_sets() -> Vec<Vec<Prop>> {
 pub fn eval_pub(c: &PubCase) -> CaseOut {
     guarded("C09", || {
         let sets = pub_prop_sets();
-        let props_ref = match c.prop_str_len {
-            Some(n) => vec![p(0x03, PVal::Str(vec![b'c'; n])), p(0x26, PVal::Pair(b"k".to_vec(), vec![]))],
-            None => sets[c.props % sets.len()].clone(),
+        let props_ref = match (c.prop_str_len, c.mb) {
+            (_, Some((ch, k, place))) if place > 0 => {
+                let st = mb_string(ch, k).into_bytes();
+                vec![match place {
+                    1 => p(0x03, PVal::Str(st)),
+                    2 => p(0x08, PVal::Str(st)),
+                    3 => p(0x26, PVal::Pair(st, b"v".to_vec())),
+                    _ => p(0x26, PVal::Pair(b"k".to_vec(), st)),
+                }]
+            }
+            (Some(n), _) => vec![p(0x03, PVal::Str(vec![b'c'; n])), p(0x26, PVal::Pair(b"k".to_vec(), vec![]))],
+            _ => sets[c.props % sets.len()].clone(),
         };
         let topic: String = match c.topic_kind {
+            _ if matches!(c.mb, Some((_, _, 0))) => {
+                let (ch, k, _) = c.mb.unwrap();
+                mb_string(ch, k)
+            }
             0 => "t".repeat(c.topic_len),
             // 2-, 3- and 4-byte characters in turn (9 bytes per round), filled up with ASCII
             _ => {
@@ -300,7 +325,9 @@ pub fn eval_pub(c: &PubCase) -> CaseOut {
                 t
             }
         };
-        assert_eq!(topic.len(), c.topic_len);
+        if c.mb.is_none() {
+            assert_eq!(topic.len(), c.topic_len);
+        }
         let payload: Vec<u8> = match c.payload_kind {
             2 => (0..c.payload_len).map(|i| b"az09 /"[i % 6]).collect(),
             _ => (0..c.payload_len).map(|i| (i % 251) as u8).collect(),
@@ -386,8 +413,9 @@ pub fn eval_pub(c: &PubCase) -> CaseOut {
             want_props.push(p(0x09, PVal::Bin(cd.clone())));
         }
         want_props.extend(props_ref.iter().cloned());
-        let legal_request = c.topic_len >= 1
-            && c.topic_len <= 65535
+        let topic_len = topic.len();
+        let legal_request = topic_len >= 1
+            && topic_len <= 65535
             && corr.as_ref().map_or(true, |x| x.len() <= 65535)
             && !(corr.is_some() && props_ref.iter().any(|q| q.id == 0x09));
         let class;
@@ -448,7 +476,7 @@ pub fn eval_pub(c: &PubCase) -> CaseOut {
                     // serializer's fixed-header reserve (at most 4 bytes more than the packet itself)
                     let mut pb = Vec::new();
                     mr::put_props(&mut pb, &want_props);
-                    let rem = 2 + c.topic_len + if c.qos > 0 { 2 } else { 0 } + pb.len() + c.payload_len;
+                    let rem = 2 + topic_len + if c.qos > 0 { 2 } else { 0 } + pb.len() + c.payload_len;
                     let total = 1 + mr::varint_len(rem as u32) + rem;
                     if rem <= 268_435_455 && c.tx >= total + 4 {
                         flag(&mut viol, "request-refused-although-it-fits", "publish", format!("a {}-byte PUBLISH refused with BufferTooSmall in an idle {}-byte transmit buffer: {:?}", total, c.tx, c));
@@ -469,7 +497,7 @@ pub fn eval_pub(c: &PubCase) -> CaseOut {
 fn pub_cases(tier: Tier) -> Vec<PubCase> {
     let mut v = Vec::new();
     let nsets = pub_prop_sets().len();
-    let base = PubCase { tx: 512, topic_len: 1, payload_len: 2, qos: 0, retain: false, props: 0, correlate: None, max_packet: None, correlate_first: false, topic_kind: 0, payload_kind: 0, prop_str_len: None, order: 0 };
+    let base = PubCase { tx: 512, topic_len: 1, payload_len: 2, qos: 0, retain: false, props: 0, correlate: None, max_packet: None, correlate_first: false, topic_kind: 0, payload_kind: 0, prop_str_len: None, order: 0, mb: None };
     // flags x property sets x correlate
     for qos in 0..3u8 {
         for retain in [false, true] {
@@ -492,6 +520,14 @@ fn pub_cases(tier: Tier) -> Vec<PubCase> {
                         v.push(PubCase { qos, retain, props, correlate, payload_kind, order, tx: 1024, ..base.clone() });
                     }
                 }
+            }
+        }
+    }
+    // a multi-byte character at every byte offset of every string of a PUBLISH
+    for ch in 0..3u8 {
+        for k in 0..=72usize {
+            for place in 0..5u8 {
+                v.push(PubCase { qos: (k % 3) as u8, mb: Some((ch, k, place)), tx: 1024, ..base.clone() });
             }
         }
     }
@@ -587,6 +623,9 @@ pub struct SubCase {
     /// their default are made only for orders >= 24: 24..48 = the same orders with every call made explicitly)
     #[serde(default)]
     pub order: u8,
+    /// Some((character width class, offset)): the first filter has a multi-byte character at that byte offset
+    #[serde(default)]
+    pub mb: Option<(u8, usize)>,
 }
 
 fn sub_prop_sets() -> Vec<Vec<Prop>> {
@@ -645,7 +684,10 @@ pub fn eval_sub(c: &SubCase) -> CaseOut {
                 s.push(if s.len() % 7 == 3 { '/' } else { 'f' });
             }
             s.truncate(*n);
-            s
+            match c.mb {
+                Some((ch, k)) if i == 0 => mb_string(ch, k),
+                _ => s,
+            }
         }).collect();
         let spec = Spec::plain(64, c.tx);
         let mut viol = Vec::new();
@@ -727,44 +769,50 @@ fn sub_cases(_tier: Tier) -> Vec<SubCase> {
     let nsets = sub_prop_sets().len();
     for code in 0..36u8 {
         for props in 0..nsets {
-            v.push(SubCase { unsubscribe: false, filters: vec![(3, code)], props, tx: 256, order: 0 });
+            v.push(SubCase { unsubscribe: false, filters: vec![(3, code)], props, tx: 256, order: 0, mb: None });
         }
     }
     // every order of chaining the builder calls, with and without the calls that only restate a default
     for code in 0..36u8 {
         for order in 1..48u8 {
-            v.push(SubCase { unsubscribe: false, filters: vec![(3, code)], props: 0, tx: 256, order });
+            v.push(SubCase { unsubscribe: false, filters: vec![(3, code)], props: 0, tx: 256, order, mb: None });
         }
     }
     for a in 0..36u8 {
         for b in 0..36u8 {
-            v.push(SubCase { unsubscribe: false, filters: vec![(2, a), (5, b)], props: 0, tx: 256, order: 0 });
+            v.push(SubCase { unsubscribe: false, filters: vec![(2, a), (5, b)], props: 0, tx: 256, order: 0, mb: None });
         }
     }
     for n in [0usize, 1, 2, 3] {
         for props in [0usize, 9, 10] {
-            v.push(SubCase { unsubscribe: true, filters: (0..n).map(|i| (1 + 2 * i, 0)).collect(), props, tx: 256, order: 0 });
-            v.push(SubCase { unsubscribe: false, filters: (0..n).map(|i| (1 + 2 * i, (i * 7) as u8)).collect(), props, tx: 256, order: 0 });
+            v.push(SubCase { unsubscribe: true, filters: (0..n).map(|i| (1 + 2 * i, 0)).collect(), props, tx: 256, order: 0, mb: None });
+            v.push(SubCase { unsubscribe: false, filters: (0..n).map(|i| (1 + 2 * i, (i * 7) as u8)).collect(), props, tx: 256, order: 0, mb: None });
         }
     }
     // many filters in one request (the remaining length crosses 127 and 16383 by count, not by one long filter); the
     // same filter twice
     for n in [4usize, 7, 8, 9, 15, 16, 17, 24, 31, 32, 33, 40, 64, 200, 255, 256, 257, 2000] {
         for props in [0usize, 9] {
-            v.push(SubCase { unsubscribe: true, filters: (0..n).map(|i| (1 + i % 5, 0)).collect(), props, tx: 20_000, order: 0 });
-            v.push(SubCase { unsubscribe: false, filters: (0..n).map(|i| (1 + i % 5, (i % 36) as u8)).collect(), props, tx: 20_000, order: 0 });
+            v.push(SubCase { unsubscribe: true, filters: (0..n).map(|i| (1 + i % 5, 0)).collect(), props, tx: 20_000, order: 0, mb: None });
+            v.push(SubCase { unsubscribe: false, filters: (0..n).map(|i| (1 + i % 5, (i % 36) as u8)).collect(), props, tx: 20_000, order: 0, mb: None });
         }
     }
-    v.push(SubCase { unsubscribe: false, filters: vec![(3, 1), (3, 1)], props: 0, tx: 256, order: 0 });
-    v.push(SubCase { unsubscribe: false, filters: vec![(3, 1), (3, 20)], props: 0, tx: 256, order: 0 });
-    v.push(SubCase { unsubscribe: true, filters: vec![(3, 0), (3, 0)], props: 0, tx: 256, order: 0 });
+    for ch in 0..3u8 {
+        for k in 0..=72usize {
+            v.push(SubCase { unsubscribe: false, filters: vec![(3, (k % 36) as u8), (2, 1)], props: 0, tx: 512, order: 0, mb: Some((ch, k)) });
+            v.push(SubCase { unsubscribe: true, filters: vec![(3, 0)], props: 0, tx: 512, order: 0, mb: Some((ch, k)) });
+        }
+    }
+    v.push(SubCase { unsubscribe: false, filters: vec![(3, 1), (3, 1)], props: 0, tx: 256, order: 0, mb: None });
+    v.push(SubCase { unsubscribe: false, filters: vec![(3, 1), (3, 20)], props: 0, tx: 256, order: 0, mb: None });
+    v.push(SubCase { unsubscribe: true, filters: vec![(3, 0), (3, 0)], props: 0, tx: 256, order: 0, mb: None });
     for len in [0usize, 1, 127, 128, 65535, 65536] {
-        v.push(SubCase { unsubscribe: false, filters: vec![(len, 1)], props: 0, tx: 70_000, order: 0 });
-        v.push(SubCase { unsubscribe: true, filters: vec![(len, 0)], props: 0, tx: 70_000, order: 0 });
+        v.push(SubCase { unsubscribe: false, filters: vec![(len, 1)], props: 0, tx: 70_000, order: 0, mb: None });
+        v.push(SubCase { unsubscribe: true, filters: vec![(len, 0)], props: 0, tx: 70_000, order: 0, mb: None });
     }
     for tx in 30..=60usize {
-        v.push(SubCase { unsubscribe: false, filters: vec![(3, 1)], props: 0, tx, order: 0 });
-        v.push(SubCase { unsubscribe: true, filters: vec![(3, 0)], props: 0, tx, order: 0 });
+        v.push(SubCase { unsubscribe: false, filters: vec![(3, 1)], props: 0, tx, order: 0, mb: None });
+        v.push(SubCase { unsubscribe: true, filters: vec![(3, 0)], props: 0, tx, order: 0, mb: None });
     }
     v
 }
@@ -973,7 +1021,7 @@ pub fn run(tier: Tier, caps: &Caps) -> Vec<FamilyReport> {
         "C09",
         pc.len() as u64,
         caps,
-        json!({"cases": pc.len(), "dimensions": "QoS x retain x 150 property sets (each kind alone with boundary values, all subsets of 7 kinds, repeated user properties, >127-byte block) x correlate {no, empty, 5 bytes}; payload lengths putting the remaining length on both sides of the 1/2, 2/3 and 3/4 byte boundaries; topic and correlation-data lengths 65534..70000; tx 0..=40"}),
+        json!({"cases": pc.len(), "dimensions": "QoS x retain x 150 property sets (each kind alone with boundary values, all subsets of 7 kinds, repeated user properties, >127-byte block) x correlate {no, empty, 5 bytes} before / after properties(); every order of chaining qos / properties / correlate / retain; payload handed over as bytes / closure / text x ASCII / multi-byte topics; payload lengths putting the remaining length on both sides of the 1/2, 2/3 and 3/4 byte boundaries; property-block lengths 100..140, 16360..16390, 65533..65535; topic and correlation-data lengths 65534..70000; payloads 0..tx+12 in transmit buffers of 24, 40, 64, 100 bytes; tx 30..=70 around the fit; a 2- / 3- / 4-byte character at every offset 0..=72 of topic, Content Type, Response Topic, User Property key and value"}),
         &|i| eval_pub(&pc[i as usize]),
         &|i| serde_json::to_value(&pc[i as usize]).unwrap(),
     ));
@@ -983,7 +1031,7 @@ pub fn run(tier: Tier, caps: &Caps) -> Vec<FamilyReport> {
         "C09",
         sc.len() as u64,
         caps,
-        json!({"cases": sc.len(), "dimensions": "all 36 option combinations (max QoS x no-local x retain-as-published x retain handling) for one filter x 11 property sets (subscription identifier at all varint width boundaries); all 36x36 pairs for two filters; 0-3 filters; filter lengths 0,1,127,128,65535,65536; tx 0..=24"}),
+        json!({"cases": sc.len(), "dimensions": "all 36 option combinations (max QoS x no-local x retain-as-published x retain handling) for one filter x 11 property sets (subscription identifier at all varint width boundaries); all 36x36 pairs for two filters; 0-3 filters; filter lengths 0,1,127,128,65535,65536; 4..2000 filters in one request; the same filter twice; every order of chaining the four SubscriptionOptions calls (with and without calls that restate a default); a 2- / 3- / 4-byte character at every offset 0..=72 of a filter; tx 30..=60"}),
         &|i| eval_sub(&sc[i as usize]),
         &|i| serde_json::to_value(&sc[i as usize]).unwrap(),
     ));
